@@ -186,9 +186,66 @@ fn rewrite_same_key() {
     check_native("committed_state_is_the_last_write", got.as_deref() == Some(want), || format!("variant {} committed {:?}", variant, got));
 }
 
+/// found missing by seed C02d: the dispatching contract has no reply entry point.  A reply that is
+/// due (whatever the sub-message's outcome) then fails, so the parent fails as a whole; a reply that is
+/// not due changes nothing.
+fn dispatcher_without_reply_entry_point() {
+    use crate::sc::Script;
+    use cosmwasm_std::{BankMsg, ReplyOn};
+    let mut w = world(1);
+    let code = w.app.store_code(sc::contract_minimal());
+    let user = w.user.clone();
+    let d = w.app.instantiate_contract(code, user.clone(), &Script::new(), &[], "d", None).unwrap();
+    let bal = sym_u128("bal_d", 0, BAL);
+    w.app.init_modules(|router, _, storage| router.bank.init_balance(storage, &d, vec![coin(bal, "x")]).unwrap());
+    let (a1, a2) = (sym_u128("a1", 0, BAL), sym_u128("a2", 0, BAL));
+    let mode = [ReplyOn::Never, ReplyOn::Success, ReplyOn::Error, ReplyOn::Always][choose(4)].clone();
+    // a plain transfer first (kept only if the whole call succeeds), then the transfer under test
+    let script = Script::new()
+        .write("marker", "1")
+        .sub(BankMsg::Send { to_address: w.sink.to_string(), amount: vec![coin(a1, "x")] }, ReplyOn::Never, 1, None)
+        .sub(BankMsg::Send { to_address: w.sink.to_string(), amount: vec![coin(a2, "x")] }, mode.clone(), 2, None);
+    let before = snapshot(&w.app);
+    let r = match catch(|| w.app.execute_contract(user.clone(), d.clone(), &script, &[])) {
+        Ok(r) => r,
+        Err(p) => {
+            failure("no_panic", "panic", p);
+            return;
+        }
+    };
+    let first_ok = decide(and(lt(k(0), v(a1)), le(v(a1), v(bal))));
+    let second_ok = first_ok && decide(and(lt(k(0), v(a2)), le(v(a2), sub(v(bal), v(a1)))));
+    let reply_due = match mode {
+        ReplyOn::Never => false,
+        ReplyOn::Success => second_ok,
+        ReplyOn::Error => !second_ok,
+        ReplyOn::Always => true,
+    };
+    let want_ok = first_ok && second_ok && !reply_due;
+    match (&r, want_ok) {
+        (Ok(_), true) => {
+            witness("no_reply_due_ok");
+            check("balances_reflect_exactly_the_kept_transfers", eq(v(balance(&w.app, &w.sink, "x")), add(v(a1), v(a2))));
+        }
+        (Err(_), false) => {
+            witness("unhandled_reply_or_failure_propagates");
+            check_unchanged("propagated_failure_leaves_storage_unchanged", &w.app, &before);
+        }
+        (Ok(_), false) => {
+            check_native("failure_must_propagate", false, || {
+                format!("mode {:?}: the call succeeded although {} and the dispatcher has no reply entry point", mode, if reply_due { "a reply was due" } else { "a sub-message failed uncaught" })
+            });
+        }
+        (Err(e), true) => {
+            check_native("no_reply_due_means_no_reply_needed", false, || format!("mode {:?}: {:#}", mode, e));
+        }
+    }
+}
+
 pub fn scenarios(tier: &str) -> Vec<Scenario> {
     let mut v = vec![];
     v.push(Scenario::new("same_key_rewritten_inside_one_transaction", &["rewrite_ok"], rewrite_same_key));
+    v.push(Scenario::new("dispatcher_without_reply_entry_point", &["no_reply_due_ok", "unhandled_reply_or_failure_propagates"], dispatcher_without_reply_entry_point));
     v.push(Scenario::new("trees_depth2_nodes3", &["tree_ok", "tree_err", "some_failure_caught"], || {
         run_tree(&Opts { max_depth: 2, max_nodes: 3, max_children: 2, vary_output: false, vary_ids: false, reply_subs: false, inst_leaves: false })
     }));
